@@ -534,6 +534,64 @@ func (p *c19) defaultLaw(rec *core.Recorder, r *core.Rand) {
 
 func (p *c19) mergeKeys(rec *core.Recorder, r *core.Rand) {
 	rec.Count("law:merge-keys", 1)
+	if r.P(1, 4) {
+		// two concatenations from one base: each result is base + its own argument, and the base stays what it was
+		a, _, _ := p.list(r)
+		b, cb, _ := p.list(r)
+		c, cc, _ := p.list(r)
+		spare := append(make([]interface{}, 0, len(a)+8), a...)
+		n := r.Range(1, 5)
+		k := r.Intn(len(a) + 1)
+		var baseSrc string
+		base := []interface{}{}
+		switch r.Intn(6) {
+		case 0:
+			baseSrc, base = "a", append(base, a...)
+		case 1:
+			baseSrc = fmt.Sprintf("range(1, %d)", n)
+			for i := 1; i <= n; i++ {
+				base = append(base, float64(i))
+			}
+		case 2:
+			baseSrc, base = fmt.Sprintf("a|slice(0, %d)", k), append(base, a[:k]...)
+		case 3:
+			baseSrc, base = "a|merge([])", append(base, a...)
+		case 4:
+			baseSrc = "a|reverse"
+			for i := len(a) - 1; i >= 0; i-- {
+				base = append(base, a[i])
+			}
+		default:
+			baseSrc, base = "a|merge(['t'])|slice(0, "+fmt.Sprint(len(a))+")", append(base, a...)
+		}
+		src := "{% set base = " + baseSrc + " %}{% set x = base|merge(b) %}{% set y = base|merge(c) %}{{ x|json_encode }}|{{ y|json_encode }}|{{ base|json_encode }}|{{ x|json_encode }}"
+		input := "twice" + baseSrc + canonList(a) + canonList(b) + canonList(c)
+		rec.Eval("merge-twice", input, len(base) > 0)
+		out, err, res := c19R(src, map[string]interface{}{"a": spare, "b": cb, "c": cc})
+		cs := map[string]any{"template": src, "a": fmt.Sprintf("%#v", a), "b": fmt.Sprintf("%#v", cb), "c": fmt.Sprintf("%#v", cc)}
+		if res.Panicked {
+			rec.Violate("panic", "panic@"+res.Site, "engine panicked: "+res.PanicVal, cs, res.Stack)
+			return
+		}
+		wants := []string{canonList(append(append([]interface{}{}, base...), b...)), canonList(append(append([]interface{}{}, base...), c...)), canonList(base), canonList(append(append([]interface{}{}, base...), b...))}
+		parts := strings.Split(out, "]|")
+		if err != nil || len(parts) != 4 {
+			rec.Count("merge-twice-unparsed", 1)
+			rec.Notes["merge-twice-unparsed"] = core.Trunc(fmt.Sprintf("%v | %s | %s", err, src, out), 300)
+			return
+		}
+		for i, pt := range parts {
+			if i < 3 {
+				pt += "]"
+			}
+			got, ok := jsonList(pt)
+			if !ok || canonList(got) != wants[i] {
+				p.violate(rec, "merge-keys", input, fmt.Sprintf("two merges from one base: part %d of %q gave %s, want %s (base %s, b %s, c %s)", i, src, pt, wants[i], canonList(base), canonList(b), canonList(c)), cs)
+				return
+			}
+		}
+		return
+	}
 	if r.Bool() {
 		a, ca, ka := p.list(r)
 		b, cb, kb := p.list(r)
